@@ -191,6 +191,8 @@ ilu_cpivotL(
 	thresh = u * pivmax;
 
 	/* Choose appropriate pivotal element by our policy. */
+	if ( *usepr && lsub_ptr[old_pivptr] != *pivrow )
+	    *usepr = 0; /* the remembered pivot row is not a candidate any more (dropped) */
 	if ( *usepr ) {
 	    switch (milu) {
 		case SMILU_1:
